@@ -332,7 +332,12 @@ pub fn install_panic_hook() {
     std::panic::set_hook(Box::new(|info| {
         let loc = info
             .location()
-            .map(|l| format!("{}:{}", l.file(), l.line()))
+            .map(|l| {
+                // location relative to the crate (independent of where the checked tree lives): signatures stay comparable
+                let f = l.file();
+                let f = f.find("etherparse/src/").map(|i| &f[i..]).unwrap_or(f);
+                format!("{}:{}", f, l.line())
+            })
             .unwrap_or_else(|| "?".into());
         let msg = if let Some(s) = info.payload().downcast_ref::<&str>() {
             s.to_string()
